@@ -65,6 +65,7 @@
 #include <stack>
 #include <cstddef>
 #include <cctype>
+#include <limits>
 
 namespace calculator
 {
@@ -184,7 +185,78 @@ private:
   std::stack<OperatorValue> stack_;
 
   /// Exponentiation by squaring, x^n.
-  static T pow(T x, T n)
+  /// All arithmetic is overflow checked: an expression whose
+  /// result (or any intermediate result) does not fit into
+  /// the integer type T is an error, it is never silently
+  /// reduced modulo 2^N.
+  void overflow() const
+  {
+    throw calculator::error(expr_, "Parser error: integer overflow");
+  }
+
+  T add(T a, T b) const
+  {
+    if (b > 0 ? a > std::numeric_limits<T>::max() - b
+              : a < std::numeric_limits<T>::min() - b)
+      overflow();
+    return a + b;
+  }
+
+  T sub(T a, T b) const
+  {
+    if (b > 0 ? a < std::numeric_limits<T>::min() + b
+              : a > std::numeric_limits<T>::max() + b)
+      overflow();
+    return a - b;
+  }
+
+  T mul(T a, T b) const
+  {
+    T max = std::numeric_limits<T>::max();
+    T min = std::numeric_limits<T>::min();
+
+    if (a == 0 || b == 0)
+      return 0;
+    if (a > 0 ? (b > 0 ? a > max / b : b < min / a)
+              : (b > 0 ? a < min / b : b < max / a))
+      overflow();
+    return a * b;
+  }
+
+  T div(T a, T b) const
+  {
+    // The only overflow is MIN / -1
+    if (std::numeric_limits<T>::is_signed &&
+        b == static_cast<T>(-1) &&
+        a == std::numeric_limits<T>::min())
+      overflow();
+    return a / b;
+  }
+
+  T mod(T a, T b) const
+  {
+    // MIN % -1 overflows in C++ but is 0
+    if (std::numeric_limits<T>::is_signed &&
+        b == static_cast<T>(-1))
+      return 0;
+    return a % b;
+  }
+
+  T shl(T a, T n) const
+  {
+    if (n < 0 || n >= (T) std::numeric_limits<T>::digits)
+      overflow();
+    return mul(a, ((T) 1) << n);
+  }
+
+  T shr(T a, T n) const
+  {
+    if (n < 0 || n >= (T) std::numeric_limits<T>::digits)
+      overflow();
+    return a >> n;
+  }
+
+  T pow(T x, T n) const
   {
     T res = 1;
 
@@ -192,13 +264,13 @@ private:
     {
       if (n % 2 != 0)
       {
-        res *= x;
+        res = mul(res, x);
         n -= 1;
       }
       n /= 2;
 
       if (n > 0)
-        x *= x;
+        x = mul(x, x);
     }
 
     return res;
@@ -228,15 +300,15 @@ private:
       case OPERATOR_BITWISE_OR:     return v1 | v2;
       case OPERATOR_BITWISE_XOR:    return v1 ^ v2;
       case OPERATOR_BITWISE_AND:    return v1 & v2;
-      case OPERATOR_BITWISE_SHL:    return v1 << v2;
-      case OPERATOR_BITWISE_SHR:    return v1 >> v2;
-      case OPERATOR_ADDITION:       return v1 + v2;
-      case OPERATOR_SUBTRACTION:    return v1 - v2;
-      case OPERATOR_MULTIPLICATION: return v1 * v2;
-      case OPERATOR_DIVISION:       return v1 / checkZero(v2);
-      case OPERATOR_MODULO:         return v1 % checkZero(v2);
+      case OPERATOR_BITWISE_SHL:    return shl(v1, v2);
+      case OPERATOR_BITWISE_SHR:    return shr(v1, v2);
+      case OPERATOR_ADDITION:       return add(v1, v2);
+      case OPERATOR_SUBTRACTION:    return sub(v1, v2);
+      case OPERATOR_MULTIPLICATION: return mul(v1, v2);
+      case OPERATOR_DIVISION:       return div(v1, checkZero(v2));
+      case OPERATOR_MODULO:         return mod(v1, checkZero(v2));
       case OPERATOR_POWER:          return pow(v1, v2);
-      case OPERATOR_EXPONENT:       return v1 * pow(10, v2);
+      case OPERATOR_EXPONENT:       return mul(v1, pow(10, v2));
       default:                      return 0;
     }
   }
@@ -329,7 +401,7 @@ private:
   {
     T value = 0;
     for (T d; (d = getInteger()) <= 9; index_++)
-      value = value * 10 + d;
+      value = add(mul(value, 10), d);
     return value;
   }
 
@@ -338,7 +410,7 @@ private:
     index_ = index_ + 2;
     T value = 0;
     for (T h; (h = getInteger()) <= 0xf; index_++)
-      value = value * 0x10 + h;
+      value = add(mul(value, 0x10), h);
     return value;
   }
 
@@ -384,7 +456,7 @@ private:
                 index_++; break;
       case '~': index_++; val = ~parseValue(); break;
       case '+': index_++; val =  parseValue(); break;
-      case '-': index_++; val =  parseValue() * static_cast<T>(-1);
+      case '-': index_++; val =  sub(0, parseValue());
                 break;
       default : if (!isEnd())
                   unexpected();
